@@ -48,7 +48,7 @@ let parse_vehicle fs =
   expect t "he"; let he = take1 t = "1" in
   { iv_capacity = cap; iv_start_level = sl; iv_start_time = st; iv_end_time = et; iv_max_duration = md;
     iv_max_stops = ms; iv_max_distance = mx; iv_max_wait = mw; iv_attrs = at; iv_activation = ac;
-    iv_has_start = hs; iv_has_end = he; iv_min_stops = Z0; iv_min_stops_pen = Z0 }
+    iv_has_start = hs; iv_has_end = he; iv_min_stops = Z0; iv_min_stops_pen = Z0; iv_mult_num = Zpos XH; iv_mult_den = Zpos XH }
 
 let parse_unit fs =
   let t = ref fs in
@@ -69,7 +69,7 @@ let parse_opts fs =
         o_dis_attributes = bo i; o_dis_start_time = bo j; o_dis_durations = bo k;
         o_f_activation = z_of_string fa; o_f_travel = z_of_string ft; o_f_vehicles_duration = z_of_string fv;
         o_f_unplanned = z_of_string fu; o_dis_dgroups = false;
-        o_f_early = Z0; o_f_late = Z0; o_f_min_stops = Z0; o_f_stop_balance = Z0 }
+        o_f_early = Z0; o_f_late = Z0; o_f_min_stops = Z0; o_f_stop_balance = Z0; o_dis_multipliers = false }
   | _ -> failwith "bad opt line"
 
 let the_gi : ginput option ref = ref None
@@ -204,6 +204,7 @@ let run_engine (id, lines) =
   let nres = ref 0 and opts = ref None in
   let dgroups = ref [] and dgopt = ref false in
   let xstops = ref [] and xvehs = ref [] and xopt = ref None in
+  let xmults = ref [] and xmopt = ref false in
   let inp = ref None and sols = ref [||] and cur = ref 0 and step = ref 0 in
   let get_inp () = match !inp with Some i -> i | None -> failwith "no build" in
   try
@@ -217,6 +218,8 @@ let run_engine (id, lines) =
     | "xopt" :: [a; b; c; d] -> xopt := Some (z_of_string a, z_of_string b, z_of_string c, z_of_string d)
     | "xstop" :: [i; t; e; l] -> xstops := (int_of_string i, (z_of_string t, z_of_string e, z_of_string l)) :: !xstops
     | "xveh" :: [v; m; q] -> xvehs := (int_of_string v, (z_of_string m, z_of_string q)) :: !xvehs
+    | "xmopt" :: [x] -> xmopt := (x = "1")
+    | "xmult" :: [v; a; b] -> xmults := (int_of_string v, (z_of_string a, z_of_string b)) :: !xmults
     | "dgopt" :: [x] -> dgopt := (x = "1")
     | "dgroup" :: d :: _ :: ss -> dgroups := !dgroups @ [(List.map (fun x -> i2n (int_of_string x)) ss, z_of_string d)]
     | "user" :: f :: mx :: vl :: tp :: _ ->
@@ -240,11 +243,14 @@ let run_engine (id, lines) =
         let vehs_x = List.mapi (fun k ve -> match List.assoc_opt k !xvehs with
                                    | Some (m, q) -> { ve with iv_min_stops = m; iv_min_stops_pen = q }
                                    | None -> ve) (List.rev !vehs) in
+        let vehs_x = List.mapi (fun k ve -> match List.assoc_opt k !xmults with
+                                   | Some (a, b) -> { ve with iv_mult_num = a; iv_mult_den = b }
+                                   | None -> ve) vehs_x in
         let i = { in_user = !users; in_stops = stops_x; in_vehicles = vehs_x; in_units = List.rev !units;
                   in_duration = List.rev !drows; in_distance = List.rev !xrows; in_nres = i2n !nres;
                   in_opts = (match !opts with
                              | Some o ->
-                                 let o = { o with o_dis_dgroups = !dgopt } in
+                                 let o = { o with o_dis_dgroups = !dgopt; o_dis_multipliers = !xmopt } in
                                  (match !xopt with
                                   | Some (a, b, c, d) -> { o with o_f_early = a; o_f_late = b; o_f_min_stops = c; o_f_stop_balance = d }
                                   | None -> o)
